@@ -28,7 +28,8 @@ def main_loop(fn):
 
 def if_with_test(text):
     def sel(fn):
-        found = [n for n in main_loop(fn).body if isinstance(n, ast.If) and ast.unparse(n.test) == text]
+        # by what the test is about, not by its spelling (a negated / flipped test is still the same statement)
+        found = [n for n in main_loop(fn).body if isinstance(n, ast.If) and text in ast.unparse(n.test)]
         return found if len(found) == 1 else []
     return sel
 
@@ -44,7 +45,7 @@ MCT_KEY = "'max_concurrent_tries'"
 
 OCCUPIED_BRANCH = Contract(
     target=TARGET, name="TestGraph.traverse_object_trees#occupied_branch",
-    block=("occupied_branch", if_with_test("next.is_occupied(worker)")),
+    block=("occupied_branch", if_with_test(".is_occupied(")),
     params={"next": Ref("TestNode"), "worker": Ref("TestWorker"), "root": Ref("TestNode"),
             "occupied_at": SetK(Ref("TestNode")), "occupied_wait": REAL, "traverse_path": Seq(Ref("TestNode"))},
     requires=on("next", WF_NODE) + ["occupied_wait >= 0", "root is not None"],
@@ -144,7 +145,7 @@ LAST = "traverse_path[len(traverse_path) - 1]"
 
 PATH_STEP = Contract(
     target=TARGET, name="TestGraph.traverse_object_trees#path_step",
-    block=("path_step", if_with_test("previous in next.cleanup_nodes")),
+    block=("path_step", if_with_test(".cleanup_nodes")),
     params={"self": Ref("TestGraph"), "next": Ref("TestNode"), "previous": Ref("TestNode"), "worker": Ref("TestWorker"),
             "params": (Ref("Params"), "nullable"), "root": Ref("TestNode"), "traverse_path": Seq(Ref("TestNode")),
             "unexplored_nodes": Seq(Ref("TestNode"))},
@@ -227,7 +228,7 @@ PATH_STEP = Contract(
 # ---------------------------------------------------------------- the first statement of the loop body (C02)
 ROOT_STEP = Contract(
     target=TARGET, name="TestGraph.traverse_object_trees#root_step",
-    block=("root_step", if_with_test("len(traverse_path) > 1")),
+    block=("root_step", if_with_test("len(traverse_path)")),
     params={"next": Ref("TestNode"), "worker": Ref("TestWorker"), "root": Ref("TestNode"),
             "traverse_path": Seq(Ref("TestNode"))},
     requires=wf_step("next") + [
